@@ -1229,14 +1229,14 @@ fn main() {
     );
 
     s.describe_check("conn_scripts", "two real connection handlers on one ShardedActorState in lock-step; twin server for the sequential run");
-    s.run_cases("conn_scripts", s.scale(25_000, 750_000), || script(false), check_conn_script);
+    s.run_cases("conn_scripts", s.scale(40_000, 750_000), || script(false), check_conn_script);
     s.describe_check(
         "conn_level_scripts",
         "the same with connection-level commands (ACL WHOAMI/USERS, AUTH, HELLO) allowed in the body: scripts containing one are excluded (counted) while KF-C05-02 is open",
     );
-    s.run_cases("conn_level_scripts", s.scale(1_500, 30_000), || script(true), check_conn_script);
+    s.run_cases("conn_level_scripts", s.scale(2_000, 30_000), || script(true), check_conn_script);
     s.describe_check("exec_scripts", "executor-level MULTI/EXEC/WATCH on one CommandExecutor; twin executor for the sequential run");
-    s.run_cases("exec_scripts", s.scale(40_000, 1_000_000), || script(false), check_exec_script);
+    s.run_cases("exec_scripts", s.scale(60_000, 1_000_000), || script(false), check_exec_script);
     s.finish();
 }
 
